@@ -223,8 +223,9 @@ class AsyncioEventLoop(EventLoop):
                 self._idle_asyncio_handle.cancel()
                 self._idle_asyncio_handle = None
 
-            if not isinstance(exc, ExitMainLoop):
+            if not isinstance(exc, ExitMainLoop) and self._exc is None:
                 # Store the exc_info so we can re-raise after the loop stops
+                # (callbacks that were already due still run: the first exception is the one to report)
                 self._exc = exc
         else:
             loop.default_exception_handler(context)
